@@ -4,7 +4,7 @@ import math
 import numpy as np
 from hypothesis import strategies as st
 
-from ..core import given_law, plain_law
+from ..core import EPS32, given_law, plain_law
 from .. import gen
 
 RULE = ("positive log-uniform r0 (1e-3..10 m), Cn2 (1e-18..1e-9), seeing (0.01..30 arcsec), wavelength (0.3..25 um, or the "
@@ -80,7 +80,10 @@ def conv_body(ctx, case):
 def slope_cases(draw):
     ns, nf = draw(st.integers(1, 6)), draw(st.integers(2, 40))
     return {"z": draw(gen.float_array((2, ns, nf), kind="dense")), "r0": draw(gen.logfloat(1e-2, 5)), "wl": draw(gen.logfloat(0.3e-6, 25e-6)),
-            "d": draw(gen.logfloat(0.01, 2)), "offset": draw(st.floats(-1, 1))}
+            "d": draw(gen.logfloat(0.01, 2)), "single": draw(st.sampled_from([False, False, True])),
+            # static tilt of the sensor in units of the slope standard deviation: reference offsets far above the
+            # turbulence signal are ordinary in open-loop data
+            "offset": draw(st.one_of(st.floats(-1, 1), gen.signed_logfloat(1, 1e6)))}
 
 
 def slope_body(ctx, case):
@@ -92,12 +95,27 @@ def slope_body(ctx, case):
     if np.any(sd < 1e-6):
         ctx.reject("degenerate_draw")
         return
-    slopes = zc / sd * math.sqrt(var) + case["offset"] * math.sqrt(var)
-    ctx.case(case, nontrivial=True, classes=["nsub%d" % z.shape[1]])
+    single = bool(case.get("single"))
+    off = case["offset"] if not single else max(-1e3, min(1e3, case["offset"]))
+    slopes = zc / sd * math.sqrt(var) + off * math.sqrt(var)
+    if single:
+        slopes = slopes.astype(np.float32)
+    ctx.case(case, nontrivial=True, classes=["nsub%d" % z.shape[1], "float32" if single else "float64",
+                                             "offset<=1sigma" if abs(off) <= 1 else "offset_1e%d_sigma" % int(math.floor(math.log10(abs(off))))])
     s0 = slopes.copy()
     got = ac.r0_from_slopes(slopes, wl, d)
     ctx.equal(slopes, s0, "r0_from_slopes modified its input")
-    ctx.close(got, r0, 1e-8, "r0_from_slopes(slopes with variance slope_variance_from_r0(r0)) == r0", scale=r0)
+    # the variance the array really has (rounding of the construction included), in extended precision, two passes
+    xl = slopes.astype(np.longdouble)
+    dev = xl - xl.mean(axis=-1, keepdims=True)
+    v_true = (dev * dev).mean(axis=-1)
+    want = float(np.mean((0.162 * wl ** 2 * d ** (-1. / 3) / v_true) ** np.longdouble(0.6)))
+    eps = EPS32 if single else 2.3e-16
+    # a two-pass variance loses nothing to the offset beyond the square of the rounding error of the mean
+    tol = 64 * eps * math.log2(z.shape[-1] + 2) + 4 * (eps * abs(off)) ** 2
+    ctx.close(got, want, tol, "r0_from_slopes(slopes) == r0 of the variance the slopes have (offset %.3g sigma, %s)" % (off, slopes.dtype), scale=want, name="r0_from_slopes vs exact variance (%s)" % slopes.dtype)
+    if not single and abs(off) <= 1:
+        ctx.close(got, r0, 1e-8, "r0_from_slopes(slopes with variance slope_variance_from_r0(r0)) == r0", scale=r0)
 
 
 @st.composite
